@@ -88,9 +88,10 @@ def lokiTail (plugins : Out) (queryEmpty : Bool) (svc : Out) (upgradeOk : Bool) 
 /-! ## Prometheus labels / values / series / metadata / instant query -/
 
 /-- `PromLabels`: plugins 500 · `getLabelsParams` 400 (only the form can be rejected: `start`/`end` fall back to the
-    defaults) · service 500 -/
-def promLabels (plugins form svc : Out) : Resp :=
-  runSteps true [(.err5xx, plugins), (.err4xx, form), (.err5xx, svc)]
+    defaults) · `getPromSeriesParamsV2` 400 (the `match[]` list, since the C17 fix that makes the endpoint honour it) ·
+    service 500 -/
+def promLabels (plugins form form2 svc : Out) : Resp :=
+  runSteps true [(.err5xx, plugins), (.err4xx, form), (.err4xx, form2), (.err5xx, svc)]
 
 /-- `LabelValues`: plugins 500 · the error of `ParseLogSeriesParamsV2` is DROPPED — and with it the `match[]` values, which
     the helper only reads after the window (the service then runs without matchers, over the zero window) · empty name 400 ·
@@ -185,7 +186,7 @@ def modelledCodes : List (String × List Nat) :=
    ("ProfController.writeResponse", [500]),
    ("PromQueryLabelsController.LabelValues", [500, 400, 500]),
    ("PromQueryLabelsController.Metadata", [500]),
-   ("PromQueryLabelsController.PromLabels", [500, 400, 500]),
+   ("PromQueryLabelsController.PromLabels", [500, 400, 400, 500]),
    ("PromQueryLabelsController.Series", [500, 400, 400, 500]),
    ("PromQueryRangeController.QueryInstant", [500, 400, 500, 500, 500]),
    ("PromQueryRangeController.QueryRange", [500, 400, 400, 500, 500, 500, 500]),
